@@ -170,9 +170,9 @@ class GridFlow(WidgetWrap[Pile], WidgetContainerMixin, WidgetContainerListConten
             DeprecationWarning,
             stacklevel=2,
         )
-        focus_position = self.focus_position
+        focus_position = self.contents.focus  # None while the container is empty
         self.contents = [(new, (WHSettings.GIVEN, self._cell_width)) for new in widgets]
-        if focus_position < len(widgets):
+        if focus_position is not None and focus_position < len(widgets):
             self.focus_position = focus_position
 
     @property
